@@ -74,6 +74,16 @@ def find_memos(f: FuncInfo):
         if isinstance(n, ast.Call) and isinstance(n.func, ast.Attribute) and n.func.attr == 'setdefault' and \
                 isinstance(n.func.value, ast.Name) and len(n.args) == 2 and isinstance(n.args[1], ast.Call):
             out.append((n.func.value.id, n.args[0], n.args[1], n))
+        # v = C.get(K) ... if v is None: [v =] C[K] = V      (also as a chained assignment)
+        if isinstance(n, ast.Assign) and isinstance(n.value, ast.Call):
+            for t in n.targets:
+                if isinstance(t, ast.Subscript) and isinstance(t.value, ast.Name):
+                    cache, ktxt = t.value.id, norm_stmt(t.slice)
+                    looked_up = any(isinstance(g, ast.Call) and isinstance(g.func, ast.Attribute) and g.func.attr == 'get'
+                                    and isinstance(g.func.value, ast.Name) and g.func.value.id == cache and g.args and
+                                    norm_stmt(g.args[0]) == ktxt for g in walk_own(f.node))
+                    if looked_up and not any(o[3] is n for o in out):
+                        out.append((cache, t.slice, n.value, n))
     return out
 
 
